@@ -58,7 +58,7 @@ def warm():
 
 def sizes(tier):
     if tier == "thorough":
-        return {"runs": 60000, "block": 100, "det": 64, "det_fresh": 8, "timeout": 3300, "order": 4000}
+        return {"runs": 25000, "block": 100, "det": 64, "det_fresh": 8, "timeout": 6500, "order": 1500}
     return {"runs": 1600, "block": 25, "det": 24, "det_fresh": 6, "timeout": 900, "order": 200}
 
 
@@ -540,6 +540,10 @@ def execute(plan, keep_log=False):
             with mon:
                 try:
                     out = ("ok", canon(e["call"](e["fn"], A, S), []))
+                except registry.ArgumentContainerModified as ex:
+                    out = ("raised", "ArgumentContainerModified:" + str(ex))
+                    res.violate("modified", "C20:argument-modified:%s:%s(list)" % (e["name"].split(".")[-1], ex),
+                                "%s replaced elements of the list '%s' it was given" % (e["name"].split(".")[-1], ex), -1)
                 except Exception as ex:
                     out = ("raised", type(ex).__name__ + (":read-only" if "read-only" in str(ex) else ""))
         finally:
